@@ -943,6 +943,14 @@ def raw_pairs(header):
         return None
 
 
+def decodable(b):
+    try:
+        b.decode("utf-8")
+        return True
+    except UnicodeDecodeError:
+        return False
+
+
 def encodable(t):
     try:
         t.encode("utf-8")
@@ -1052,10 +1060,18 @@ def oracle_request(case):
                 return ("request-jar:initial-read", "header %r reads as %r, its pairs mean %r" % (header, init, list(ref.items())))
         if ref is None and not isinstance(init, Err):
             ref = {k: v for k, v in init}
+        finding = None
         for i, op in enumerate(ops):
             before = req.environ.get("HTTP_COOKIE")
             before_pairs = raw_pairs(before)
             before_jar = read_jar(req, view)
+            if finding is None and before_jar == Err("UnicodeDecodeError") and before_pairs is not None:
+                poison = [k for k, v in C().parse_cookie(before) if not decodable(v)]
+                good = [k for k, v in C().parse_cookie(before) if decodable(v)]
+                if poison and good:
+                    finding = ("request-jar:non-utf8-value-poisons-jar",
+                               "step %d on %r: header %r: cookie %r holds octets that are not UTF-8 and reading ANY cookie (%r) "
+                               "raises UnicodeDecodeError" % (i, header, before, poison[0], good))
             if not semantic:
                 # not known to be tokenisable by construction: the reference follows what the implementation reads, and the
                 # theorems' own domain predicate decides, header by header, whether the dict-model comparison is owed
@@ -1114,7 +1130,7 @@ def oracle_request(case):
                 if after != before or jar != before_jar:
                     return (key, where + "a rejected operation changed the jar")
                 continue
-            if after is not None and (not isinstance(after, str) or raw_pairs(after) is None):
+            if after is not None and after != before and (not isinstance(after, str) or raw_pairs(after) is None):
                 return (key, where + "HTTP_COOKIE is no longer a latin-1 native string")
             if t == "clear":
                 if r is not None or jar != []:
@@ -1141,11 +1157,17 @@ def oracle_request(case):
                         want[k] = v
                     if bad != isinstance(r, Err):
                         return (key, where + "assignment returned %r" % (r,))
-                    if jar != [[k, v] for k, v in want.items()]:
-                        return (key, where + "jar reads %r, assigned %r" % (jar, list(want.items())))
-                    ref = want
-                    if t == "assign":
-                        semantic = True      # the header is now entirely webob's own
+                    if bad and t == "assign":
+                        # request.cookies = {...} that is refused: the jar stays as it was
+                        if after != before or jar != before_jar:
+                            return ("request-cookies-setter:refused-assignment-changes-jar",
+                                    where + "the assignment raised %r, yet the jar now reads %r (it read %r)" % (r, jar, before_jar))
+                    else:
+                        if jar != [[k, v] for k, v in want.items()]:
+                            return (key, where + "jar reads %r, assigned %r" % (jar, list(want.items())))
+                        ref = want
+                        if t == "assign":
+                            semantic = True      # the header is now entirely webob's own
             elif t == "popitem":
                 if ref is not None:
                     if not ref:
@@ -1196,7 +1218,7 @@ def oracle_request(case):
                 return ("request-jar:fresh-request-disagrees", where + "a fresh Request reads %r / %r, this one %r" % (f1, f2, jar))
             if isinstance(jar, Err) and semantic:
                 return (key, where + "jar unreadable: %r" % (jar,))
-    return None
+    return finding
 
 
 def ref_line_name(line):
@@ -1251,6 +1273,8 @@ def args_valid(a, deleting=False, strictq=0):
     if ss:
         if a.get("validate", True) and ss.lower() not in ("strict", "lax", "none"):
             return False
+        if not a.get("validate", True) and not all(c in "!#$%&'*+-.^_`|~0123456789abcdefghijklmnopqrstuvwxyzABCDEFGHIJKLMNOPQRSTUVWXYZ" for c in ss):
+            return False          # with the module flag off the value is copied verbatim: it must still be a token
         if ss.lower() == "none" and not a.get("secure"):
             return False
         if not all(ord(c) < 128 for c in ss):
@@ -1375,9 +1399,11 @@ def oracle_response(case):
                 else:
                     if not isinstance(r, Err):
                         return ("response:invalid-arguments-accepted", where + "invalid arguments accepted")
-                    if now[w][0] not in (want[w], filtered):
-                        return (key, where + "a refused set_cookie changed other Set-Cookie headers")
-                    want[w] = now[w][0]
+                    if now[w][0] != want[w]:
+                        if now[w][0] == filtered:
+                            return ("set-cookie-overwrite:refused-call-removes-old-cookie",
+                                    where + "set_cookie(overwrite=True) raised %r, yet the cookie it was to replace is gone" % (r,))
+                        return (key, where + "a refused set_cookie changed the Set-Cookie headers")
             elif t == "unset":
                 w, name, strict = op[1], op[2], op[3]
                 present = any(ref_line_name(l) == name for l in want[w])
@@ -1879,10 +1905,10 @@ def run(ctx):
 # ----------------------------------------------------------------------------- oracle sweep
 SMALL_HEADERS = [None, "", "a=1", "a=1; b=2", "ab=1; a=2; A=3", "a=1; a=2", "b=0; a=1; ab=2; a=3",
                  "$Version=1; a=1; $Path=/; b=\"x; a=9\"", "a = 1 ;; secure; b=2;", "A=\"q r\"; HttpOnly; ab=x=y", "; a=1; ",
-                 "a=\"x\\073y\"; b=", "a; ab; b=1", "a=\\;; b=2"]
+                 "a=\"x\\073y\"; b=", "a; ab; b=1", "a=\\;; b=2", "a=1; n=\"\\377\"; c=3"]
 SMALL_INTENT = [[], [], [("a", b"1")], [("a", b"1"), ("b", b"2")], [("ab", b"1"), ("a", b"2"), ("A", b"3")], [("a", b"1"), ("a", b"2")],
                 [("b", b"0"), ("a", b"1"), ("ab", b"2"), ("a", b"3")], [("a", b"1"), ("b", b"x; a=9")], [("a", b"1"), ("b", b"2")],
-                [("A", b"q r"), ("ab", b"x=y")], [("a", b"1")], [("a", b"x;y"), ("b", b"")], [("b", b"1")], [("a", b";"), ("b", b"2")]]
+                [("A", b"q r"), ("ab", b"x=y")], [("a", b"1")], [("a", b"x;y"), ("b", b"")], [("b", b"1")], [("a", b";"), ("b", b"2")], [("a", b"1"), ("n", b"\xff"), ("c", b"3")]]
 
 
 def small_rops():
@@ -1897,6 +1923,7 @@ def small_rops():
     u.append(("clear",))
     u.append(("assign", [("b", "5"), ("A", "é")]))
     u.append(("assign", [], "self"))
+    u.append(("assign", [("b", "5"), ("a b", "x")]))
     u.append(("pop", "a", False))
     u.append(("setdefault", "b", "9"))
     u.append(("set", b"a", "1"))
@@ -1921,6 +1948,7 @@ def small_xops():
     u.append(("merge", 0))
     u.append(("merge", 1))
     u.append(("mergeself", 0))
+    u.append(("set", 0, dict(base, name="a", value="9", samesite="bogus"), True))
     u.append(("raw", 0, "Set-Cookie", "z=1; Priority=High; Partitioned"))
     u.append(("set", 0, dict(base, name="ab", value="é", secure=True, samesite="future", validate=False,
                              shape={"pos": 9, "name_bytes": True, "value": "bytes", "int_flags": True}), True))
